@@ -65,7 +65,7 @@ def run(rep, tier, seed):
     ncat = len(catalogue.models())
     n = 24 if quick else 400
     jobs = [(seed % 100000 + 2, i, {"catalogue": i, "quick": quick}) for i in range(ncat)]
-    jobs += [(seed % 100000 + 2, 100 + i, {"quick": quick, "cython": (i % 12 == 0)}) for i in range(n)]
+    jobs += [(seed % 100000 + 2, 100 + i, {"quick": quick, "cython": (i % 12 == 0), "extend": 0.35}) for i in range(n)]
     results = mc.pool_map(dc.det_worker, jobs)
     stiff = mc.pool_map(dc.stiff_worker, [(100.0, seed), (300.0, seed)])
     rep.cov["stiff_instances"] = {r["name"]: {"calls": r["calls"], "refused_with_IntegrationError": r["refused"],
@@ -75,6 +75,7 @@ def run(rep, tier, seed):
     rep.assume("reference engine: scipy solve_ivp DOP853 (rtol 1e-12, atol 1e-13) on the specification's right-hand side")
     rep.assume("tolerance 1e-5 (1+max|ref|) on the odeint path (default tolerances 1.5e-8), 1e-7 (1+max|ref|) on the "
                "atol=rtol=1e-10 paths; instances generated with L*T <= 8")
+    rep.cov["models_extended_after_solving"] = sum(1 for r in results if r.get("extended"))   # same object, add_* then solved again
     rep.rule("%d catalogue + %d random bounded-rate models; per model every entry point x method (quick: a sample of 5) x "
              "full_output x includeOrigin, uniform or non-uniform grid; a call is one trace" % (ncat, n))
     if acc == 0 and not rep.violations and not rep.known_hits:
